@@ -68,6 +68,29 @@ theorem C14_marginal {β} (est : List Rat → β) (nx nt : ℕ) (hnt : 0 < nt) (
     rw [C14_cell est nx nt hnt xg tg D lag j hl hj]
     simp [stMarginalTime, List.getElem?_range hj]
 
+/-- the whole table from the raw inputs (space edges / distances, time edges / distances, value
+table): entry `i·nt + j` is the estimator over exactly the `|v[a,s] − v[b,t]|` of the location pairs
+`a<b` with `xedge[i-1] < d_x ≤ xedge[i]` and the time-step pairs `s<t` with
+`tedge[j-1] < d_t ≤ tedge[j]`; pairs at distance 0 (co-located stations) are in no class -/
+theorem C14_table {β} (est : List Rat → β) (xe te xd td : List Rat) (v : List (List Rat))
+    (hx : (0 :: xe).Pairwise (· ≤ ·)) (ht : (0 :: te).Pairwise (· ≤ ·))
+    (hxd : ∀ d ∈ xd, 0 ≤ d) (htd : ∀ d ∈ td, 0 ≤ d) (hnt : 0 < te.length)
+    (i j : ℕ) (hi : i < xe.length) (hj : j < te.length) :
+    (stExperimental est xe.length te.length (groupsOC xe xd) (groupsOC te td) (stDiff v))[i * te.length + j]? =
+      some (est ((((xd.zip (stDiff v)).filter (fun p => inClassOC xe i p.1)).map (·.2)).flatMap
+        fun row => ((td.zip row).filter (fun p => inClassOC te j p.1)).map (·.2))) ∧
+    groupLoopOC xe 0 = -1 ∧ groupLoopOC te 0 = -1 := by
+  refine ⟨?_, groupLoopOC_zero xe hx, groupLoopOC_zero te ht⟩
+  rw [C14_cell est xe.length te.length hnt _ _ _ i j hi hj]
+  unfold stCell
+  rw [lagClassOC_spec xe hx i hi xd (stDiff v) hxd]
+  congr 2
+  have : (fun row : List Rat => lagClass (groupsOC te td) row j) =
+      fun row => ((td.zip row).filter (fun p => inClassOC te j p.1)).map (·.2) := by
+    funext row
+    exact lagClassOC_spec te ht j hj td row htd
+  rw [this]
+
 example : groupsOC [1, 2, 3] [0, 1, 3/2, 3, 4] = [-1, 0, 1, 2, -1] := by decide +kernel
 
 
